@@ -210,12 +210,29 @@ def gen_doc(r):
             % (escape(decl), "\n".join(t)))
 
 
+# pairs of texts the parser turns into `equal` trees that print differently unless equal() looked at the constant's type
+SPECIAL = ["b == true", "b == 1", "c == false", "c == 0", "a[1]", "a[true]", "i + 1", "i + 1"]
+
+
+def strip_ids(sx):
+    return re.sub(r"\((\d+) ", "(", sx)
+
+
+def const_type_shape(sa, sb):
+    """first differing token of two identity-free trees, as a shape: constant-type:B/I"""
+    ta, tb = strip_ids(sa).replace("(", " ( ").replace(")", " ) ").split(), strip_ids(sb).replace("(", " ( ").replace(")", " ) ").split()
+    for x, y in zip(ta, tb):
+        if x != y:
+            return "constant-type:%s/%s" % (x, y) if x in "BIDS-" and y in "BIDS-" else "structure:%s/%s" % (x, y)
+    return "structure"
+
+
 # ------------------------------------------------------------------------------------------------
 def session(ctx, exe, r, nexpr, nquery, have_drv, stats):
     """one generated document + expressions + queries: oracle (LAWS) and correspondence with the Lean driver"""
     xml = gen_doc(r)
     g = G(r)
-    texts = []
+    texts = [("E", t) for t in SPECIAL]
     for _ in range(nexpr):
         t = g.any(r.randint(0, 3))
         texts.append(("E", t))
@@ -267,6 +284,11 @@ def session(ctx, exe, r, nexpr, nquery, have_drv, stats):
         pairs += [(vk, j) for j in range(ntrees, total)][:8]
     for a, bb in pairs:
         ops.append("equal %d %d" % (a, bb))
+    # the special texts against each other
+    sp = [k for k, op, t in accepted if t in SPECIAL]
+    pairs += [(x, y) for x in sp for y in sp if x != y]
+    for a, bb in pairs:
+        ops.append("equal %d %d" % (a, bb))
     lines3 = lines2 + ["TREE %d" % k for k in trees] + ["NSYMS"]
     rc, out, err, _ = core.run_exe(exe, [], stdin_text="\n".join(lines3) + "\n", timeout=300)
     o = out.split("\n")
@@ -292,7 +314,8 @@ def session(ctx, exe, r, nexpr, nquery, have_drv, stats):
             ops.append("subst %d %d %d" % (k, r.randrange(nsyms), r.choice(trees)))
     # the laws are run on the trees the parser produced (perturbed variants are ill-formed on purpose and need not print)
     law_lines = ["LAWS %d %d" % (k, r.randrange(ntrees)) for k in range(ntrees)]
-    lines4 = lines3 + ops + law_lines
+    text_lines = ["TEXT %d" % k for k in range(ntrees)]
+    lines4 = lines3 + ops + text_lines + law_lines
     rc, out, err, _ = core.run_exe(exe, [], stdin_text="\n".join(lines4) + "\n", timeout=600)
     o = out.split("\n")
     res = {"fails": [], "xml": xml, "texts": texts}
@@ -302,7 +325,17 @@ def session(ctx, exe, r, nexpr, nquery, have_drv, stats):
     body = o[len(lines3):]
     # FAIL lines interleave with LAWS lines: separate op answers (first len(ops) lines) from the rest
     impl_ops = body[:len(ops)]
-    for l in body[len(ops):]:
+    impl_text = body[len(ops):len(ops) + ntrees]
+    # equal => same text, on trees the parser itself produced (no API-built node involved)
+    for idx, op in enumerate(ops):
+        p = op.split()
+        if p[0] == "equal" and impl_ops[idx] == "true" and int(p[1]) < ntrees and int(p[2]) < ntrees and p[1] != p[2]:
+            stats["laws"]["equal_implies_same_text(parsed pairs)"] = stats["laws"].get("equal_implies_same_text(parsed pairs)", 0) + 1
+            ta, tb = impl_text[int(p[1])], impl_text[int(p[2])]
+            if ta != tb:
+                res["fails"].append("FAIL equal_implies_same_text %s parsed trees %s and %s are equal() but print %s vs %s" % (
+                    const_type_shape(tree_sx[int(p[1])], tree_sx[int(p[2])]), p[1], p[2], ta[5:], tb[5:]))
+    for l in body[len(ops) + ntrees:]:
         if l.startswith("FAIL "):
             res["fails"].append(l)
         elif l.startswith("LAWS "):
@@ -325,7 +358,13 @@ def session(ctx, exe, r, nexpr, nquery, have_drv, stats):
     if have_drv:
         llines = ["RESET"] + ["T %d %s" % (k, tree_sx[k]) for k in trees] + ops
         rc2, out2, err2, _ = core.run_exe(core.lean_exe("drv_c19"), [], stdin_text="\n".join(llines) + "\n", timeout=600)
-        lo = out2.split("\n")[1 + len(trees):]
+        lo_all = out2.split("\n")
+        for k, l in zip(trees, lo_all[1:1 + len(trees)]):
+            if k < ntrees and l != "ok parseBuilt=true noNaN=true":
+                res["dis"].append({"op": "T %d" % k, "impl": "a tree produced by the parser", "model": l,
+                                   "trees": {str(k): tree_sx[k][:1500]}})
+        stats["hypotheses_checked"] = stats.get("hypotheses_checked", 0) + ntrees
+        lo = lo_all[1 + len(trees):]
         res["dis"] = []
         for idx, op in enumerate(ops):
             a = impl_ops[idx] if idx < len(impl_ops) else "<missing>"
@@ -364,7 +403,7 @@ def run(ctx):
     # 3 + 4 ---------------------------------------------------------------------------------------
     stats = {"docs_rejected": 0, "texts_rejected": 0, "texts_accepted": 0, "trees": 0, "nodes": 0, "oracle_checks": 0, "probe_ok": True,
              "laws": {}, "kinds": {}, "corr_ops": {}, "corr_cases": 0, "equal_true": 0, "arity_probed": {}}
-    nsess = 6 if not ctx.thorough else 80
+    nsess = 16 if not ctx.thorough else 250
     fails, dis, samples = [], [], []
     for sidx in range(nsess):
         res = session(ctx, exe, r, 45, 25, have_drv, stats)
@@ -411,6 +450,7 @@ def run(ctx):
         "correspondence_cases": stats["corr_cases"], "correspondence_disagreements": len(dis),
         "correspondence_ops": stats["corr_ops"], "equal_true_between_trees": stats["equal_true"],
         "trees": stats["trees"], "nodes": stats["nodes"], "distinct_nontrivial": stats["trees"],
+        "theorem_hypotheses_checked_on_parsed_trees": stats.get("hypotheses_checked", 0),
         "texts_accepted": stats["texts_accepted"], "texts_rejected": stats["texts_rejected"], "docs_rejected": stats["docs_rejected"],
         "distribution": {"kinds_hit": len(stats["kinds"]), "kinds": dict(sorted(stats["kinds"].items(), key=lambda kv: -kv[1])),
                          "law_checks": stats["laws"],
